@@ -532,8 +532,11 @@ class World(EventDispatcher):
         Pending events (in case of disabled dispatching) are not.
         Entities are removed before processors.
         """
-        for entity in tuple(self._entities):
-            self.delete_entity(entity, immediate=True)
+        # Callbacks may delete other entities, or create new ones
+        while self._entities:
+            for entity in tuple(self._entities):
+                if entity in self._entities:
+                    self.delete_entity(entity, immediate=True)
         self._dead_entities.clear()
 
         for processor in tuple(self._sorted_processors):
